@@ -396,21 +396,19 @@ impl Variant {
     }
 
     pub fn and(self, other: Self) -> Result<Self, VariantError> {
-        match self {
-            Self::VInteger(a) => match other {
-                Self::VInteger(b) => Ok(Self::VInteger(qb_and(a, b))),
-                _ => Err(VariantError::TypeMismatch),
-            },
+        match (self, other) {
+            (Self::VInteger(a), Self::VInteger(b)) => Ok(Self::VInteger(qb_and(a, b))),
+            // LONG operands: the bitwise operation on 32-bit words
+            (Self::VLong(a), Self::VLong(b)) => Ok(Self::VLong(((a as i32) & (b as i32)) as i64)),
             _ => Err(VariantError::TypeMismatch),
         }
     }
 
     pub fn or(self, other: Self) -> Result<Self, VariantError> {
-        match self {
-            Self::VInteger(a) => match other {
-                Self::VInteger(b) => Ok(Self::VInteger(qb_or(a, b))),
-                _ => Err(VariantError::TypeMismatch),
-            },
+        match (self, other) {
+            (Self::VInteger(a), Self::VInteger(b)) => Ok(Self::VInteger(qb_or(a, b))),
+            // LONG operands: the bitwise operation on 32-bit words
+            (Self::VLong(a), Self::VLong(b)) => Ok(Self::VLong(((a as i32) | (b as i32)) as i64)),
             _ => Err(VariantError::TypeMismatch),
         }
     }
